@@ -408,7 +408,7 @@ func main() {
 		scenario("slow205", params{producers: 1, events: 205, latency: 5 * time.Second}, vrt.Bounds{Dev: 0, Seconds: 60}, vrt.Bounds{Dev: 1, Seconds: 300}),
 		costly(scenario("slow-p2e2", params{producers: 2, events: 2, latency: 5 * time.Second}, vrt.Bounds{Dev: 2, Seconds: 60}, vrt.Bounds{Dev: 3, Seconds: 600})),
 		scenario("hold-close", params{producers: 1, events: 3, holdClose: true}, vrt.Bounds{Dev: 1, Seconds: 60}, vrt.Bounds{Dev: 3, Seconds: 300}),
-		scenario("hold-close205", params{producers: 1, events: 205, holdClose: true}, vrt.Bounds{Dev: 0, Seconds: 60}, vrt.Bounds{Dev: 1, Seconds: 300}),
+		costly(scenario("hold-close205", params{producers: 1, events: 205, holdClose: true}, vrt.Bounds{Dev: 0, Seconds: 60}, vrt.Bounds{Dev: 1, Seconds: 300})),
 		scenario("quiet-p1e2", params{producers: 1, events: 2, idle: true}, vrt.Bounds{Dev: 1, Seconds: 60}, vrt.Bounds{Dev: 3, Seconds: 600}),
 		costly(scenario("quiet-p2e1", params{producers: 2, events: 1, idle: true}, vrt.Bounds{Dev: 2, Seconds: 60}, vrt.Bounds{Dev: 3, Seconds: 900})),
 		// held broker and twice as many events as the input channel holds: the buffer between the loops must take them all
